@@ -805,6 +805,54 @@ Proof.
   destruct (conv_loop f sl r); reflexivity.
 Qed.
 
+(* unterminated strings and comments: everything to the end is copied and the terminator is appended *)
+Lemma get_token_s_none sp x : occursb sp x = false ->
+  forall ln, exists ln', get_token_s sp x ln = (x, [], ln').
+Proof.
+  induction x as [|c x IH]; intros Ho ln; [eexists; reflexivity|].
+  cbn [occursb] in Ho. apply orb_false_iff in Ho. destruct Ho as [H1 H2].
+  cbn [get_token_s]. change (prefixb sp (c :: x)) with (starts sp (c :: x)). rewrite H1.
+  destruct (IH H2 (if c =? c_NL then ln + 1 else ln)) as [ln' E]. rewrite E. eexists. reflexivity.
+Qed.
+
+Lemma not_in_occursb1 p x : ~ In p x -> occursb [p] x = false.
+Proof.
+  induction x as [|c x IH]; intros H; [reflexivity|]. cbn [occursb starts].
+  replace (p =? c) with false by (symmetry; apply Z.eqb_neq; intros ->; apply H; left; reflexivity).
+  cbn [andb orb]. apply IH. intros Hin. apply H. right. exact Hin.
+Qed.
+
+Theorem conv_unterminated f sl body : sl_ok sl ->
+  (occursb [34; 125] ([123; 34] ++ body) = false -> (length ([123; 34] ++ body)%Z < f)%nat ->
+     conv_loop f sl ([123; 34] ++ body) = Ok ([123; 34] ++ body ++ [34; 125])) /\
+  (~ In 10 body -> (length ([47; 47] ++ body)%Z < f)%nat ->
+     conv_loop f sl ([47; 47] ++ body) = Ok ([47; 47] ++ body ++ [10])) /\
+  (occursb [42; 47] ([47; 42] ++ body) = false -> (length ([47; 42] ++ body)%Z < f)%nat ->
+     conv_loop f sl ([47; 42] ++ body) = Ok ([47; 42] ++ body ++ [42; 47])).
+Proof.
+  intros Hok. assert (Hnil : forall g, (0 < g)%nat -> conv_loop g sl [] = Ok []) by (intros [|g] Hg; [lia | reflexivity]).
+  split; [|split].
+  - intros Ho Hf. destruct (get_token_s_none _ _ Ho 0) as [ln' E].
+    cbn [app] in *. rewrite conv_unfold by assumption. unfold conv_body.
+    change (zen2han 123) with 123. change (123 =? c_LBRACE) with true. cbn match.
+    change (prefixb [c_LBRACE; c_DQ] (123 :: 34 :: body)) with ((123 =? 123) && ((34 =? 34) && true)). cbn match.
+    change [c_DQ; c_RBRACE] with [34; 125]. rewrite E. rewrite Hnil by lia. reflexivity.
+  - intros Hn Hf.
+    assert (Ho : occursb [10] ([47; 47] ++ body) = false).
+    { apply not_in_occursb1. cbn [app]. intros [H|[H|H]]; [discriminate | discriminate | contradiction]. }
+    destruct (get_token_s_none _ _ Ho 0) as [ln' E].
+    cbn [app] in *. rewrite conv_unfold by assumption. unfold conv_body.
+    change (zen2han 47) with 47. change (47 =? c_LBRACE) with false. change (47 =? c_SLASH) with true. cbn match.
+    change (prefixb [c_SLASH; c_SLASH] (47 :: 47 :: body)) with ((47 =? 47) && ((47 =? 47) && true)). cbn match.
+    change [c_NL] with [10]. rewrite E. rewrite Hnil by lia. reflexivity.
+  - intros Ho Hf. destruct (get_token_s_none _ _ Ho 0) as [ln' E].
+    cbn [app] in *. rewrite conv_unfold by assumption. unfold conv_body.
+    change (zen2han 47) with 47. change (47 =? c_LBRACE) with false. change (47 =? c_SLASH) with true. cbn match.
+    change (prefixb [c_SLASH; c_SLASH] (47 :: 42 :: body)) with ((47 =? 47) && ((47 =? 42) && true)).
+    change (prefixb [c_SLASH; c_STAR] (47 :: 42 :: body)) with ((47 =? 47) && ((42 =? 42) && true)). cbn match.
+    change [c_STAR; c_SLASH] with [42; 47]. rewrite E. rewrite Hnil by lia. reflexivity.
+Qed.
+
 (* ------------------------------------------------------------------------------------------ *)
 (* 7. facts of the regenerated table                                                            *)
 (* ------------------------------------------------------------------------------------------ *)
